@@ -28,7 +28,8 @@
 //! * `boundary_records(&HeaderDesc, Level, huge) -> Vec<RecDesc>`: deterministic boundary corpus;
 //! * `coordinate_sorted_set(&mut Rng, &HeaderDesc, n, &RecOpts) -> Vec<RecDesc>`: records in
 //!   coordinate order straddling bin edges, long-before-short, dense runs, placed/unplaced unmapped;
-//! * `rec_class(&RecDesc) -> String`: coarse class for distinct-case fingerprints.
+//! * `rec_class(&RecDesc) -> String`, `aux_classes(&RecDesc) -> Vec<String>`: coarse classes for
+//!   distinct-case fingerprints; `summary(&RecDesc)`: short SAM-like rendering for diagnostics.
 //!
 //! Conversions (`conv`): `to_record_buf(&RecDesc, &HeaderDesc) -> RecordBuf`, `to_header(&HeaderDesc)
 //! -> sam::Header` (through noodles' builders/setters), and the inverses `describe_record(&RecordBuf)`,
@@ -37,7 +38,8 @@
 //! `to_value`/`describe_value`, `kind_of`/`char_of`.
 //!
 //! Independent SAM text (`text`): `to_sam_line`, `sam_columns`, `aux_text`,
-//! `aux_text_is_canonical`, `header_text`, `parse_sam_line` (dumb TAB-splitting reader).
+//! `aux_text_is_canonical`, `header_text`, `parse_sam_line` and `parse_header_text` (dumb TAB-splitting
+//! readers).
 //!
 //! Independent BAM (`bam`): `reg2bin(beg,end)` (SAMv1 5.3), `expected_bin(&RecDesc)`,
 //! `split_bam_stream(uncompressed) -> BamStream{text, refs, records}`, `split_bam_record(body) ->
@@ -58,12 +60,13 @@ pub mod text;
 pub use bam::{BamCore, BamParts, BamStream, decode_bam_record, expected_bin, reg2bin, split_bam_record, split_bam_stream};
 pub use cmp::{Cmp, Diff, bam_normal_form, diff_records, sam_normal_form};
 pub use conv::{describe_alignment_record, describe_header, describe_lazy_value, describe_record, to_header, to_record_buf};
-pub use desc::{AuxDesc, BAM_BASES, CIGAR_OPS, HdDesc, HeaderDesc, MapDesc, RecDesc, SqDesc, Tag2, bam_bases, span};
+pub use desc::{AuxDesc, BAM_BASES, CIGAR_OPS, HdDesc, HeaderDesc, MapDesc, RecDesc, SqDesc, Tag2, bam_bases, span, summary};
 pub use generate::{
     AUX_KINDS, HeaderOpts, INVALID_KINDS, Invalid, Level, RecOpts, boundary_records, coordinate_sorted_set, gen_header, gen_invalid_record,
     gen_record, rec_class,
 };
-pub use text::{aux_text, aux_text_is_canonical, header_text, parse_sam_line, sam_columns, to_sam_line};
+pub use generate::aux_classes;
+pub use text::{aux_text, aux_text_is_canonical, header_text, parse_header_text, parse_sam_line, sam_columns, to_sam_line};
 
 #[cfg(test)]
 mod tests {
